@@ -39,6 +39,7 @@ def rule_send_classification(ctx):
     ef = ExcFlow(ctx.program, an, callgraph=cg, report_generic_raise=True, opaque_raises={"self._serializer.serialize": "Exception"},
                  stop={"_trigger", "_send", "logTxFrame", "logTxOctets", "start_compress_message", "compress_message_data", "end_compress_message"})
     found = 0
+    cell_results = {}
     for q in SENDS:
         if not ctx.program.has_func(q):
             continue
@@ -50,20 +51,16 @@ def rule_send_classification(ctx):
         for s in sites:
             kinds.setdefault(s.exc, s)
         bad = {k: v for k, v in kinds.items() if k not in HANDLED | GONE}
-        # a limit re-checked inside sendString() is discharged when send() tests the same limit on the same data first
-        g0, mf0, res0 = an.get(fn)
-        for k, s_ in list(bad.items()):
-            if s_.fn.name == "sendString" and s_.fn.qualname != fn.qualname:
-                gs, mfs, ress = an.get(s_.fn)
-                rn = [n for n in gs.stmt_nodes() if n.ast is s_.node]
-                lim = [f for f in (mfs.at(rn[0]) if rn else ()) if f[0] == "lt" and f[3] and f[1][0] == "e" and f[1][1].startswith("self.")]
-                calls = [(n, c) for n in g0.stmt_nodes() for c in node_calls(n) if self_call(c, "sendString")]
-                if lim and calls:
-                    A = lim[0][1]
-                    arg = norm.text(calls[0][1].args[0])
-                    lens = {norm.text(x.targets[0]) for x in walk_no_defs(fn.node) if isinstance(x, ast.Assign) and norm.text(x.value) == f"len({arg})"}
-                    if any(f[0] == "lt" and not f[3] and f[1] == A and f[2][0] == "e" and (f[2][1] in lens or f[2][1] == f"len({arg})") for f in mf0.at(calls[0][0])):
-                        del bad[k]
+        # a raise inside the framing function sendString() is discharged by the cell-wise evaluation of send() (shared with C13.4: every announced
+        # maximum x serialized length around each threshold): whatever leaves send() on those cells is PayloadExceededError or nothing
+        from .c13 import SEND_LIMITS, send_limit_cells
+        lim_of = dict(SEND_LIMITS)
+        if q in lim_of:
+            probs_, n_, kinds_ = send_limit_cells(ctx, q, lim_of[q], "C10.1-transport-send-error-classes")
+            cell_results[q] = (probs_, n_)
+            for k, s_ in list(bad.items()):
+                if s_.fn.name == "sendString" and s_.fn.qualname != fn.qualname and k not in kinds_:
+                    del bad[k]
         for k, s in sorted(bad.items()):
             # raises that only signal API misuse of sendFrame etc. are not reply-dependent
             if k == "Exception" and s.fn.qualname != fn.qualname and "serialize" not in s.what:
@@ -81,12 +78,9 @@ def rule_send_classification(ctx):
     # size limit of the asyncio/twisted rawsocket is signalled as PayloadExceededError before anything is written
     for q in SENDS[1:]:
         fn = ctx.program.func(q)
-        g, mf, res = an.get(fn)
-        raises = [n for n in g.stmt_nodes() if n.kind == "stmt" and isinstance(n.ast, ast.Raise) and "PayloadExceededError" in norm.text(n.ast.exc)]
-        writes = [(n, c) for n in g.stmt_nodes() for c in node_calls(n) if self_call(c, "sendString")]
-        ok = len(raises) == 1 and len(writes) == 1 and not g.path_exists(raises[0], writes[0][0])
-        ctx.ob(f"{q}: an over-limit message raises PayloadExceededError instead of being written", ok,
-               "size limit not signalled as PayloadExceededError in send()", fn.loc())
+        probs_, n_ = cell_results.get(q, (["send() not evaluated"], 0))
+        ctx.ob(f"{q}: an over-limit message raises PayloadExceededError instead of being written, a message within the limit is written [{n_} cells]", not probs_,
+               "; ".join(probs_[:2]), fn.loc())
 
 
 def rule_fallback(ctx):
